@@ -42,7 +42,7 @@ def run_one(patch, ids, tier):
     try:
         for pid in ids:
             t0 = time.time()
-            r = sh([os.path.join(ROOT, "check"), pid, tier], cwd=ROOT)
+            r = sh([os.path.join(ROOT, "check"), pid, tier], cwd=ROOT, env=dict(os.environ, VERIF_EVIDENCE_DIR="/tmp/mutant-evidence"))
             viol = [l for l in r.stdout.splitlines() if l.startswith("VIOLATION ")]
             detail = ""
             lines = r.stdout.splitlines()
